@@ -17,6 +17,11 @@ Round 3: the eval / exec routes carry namespace arguments (eval(text[, globals[,
     at module level and inside a function - for import statements (the recording says in which mapping the names were
     bound: ImportCore!Place), for the excluded names, and for print / log.* calls (ImportCore!NameResolves);
     (M2) spec/ImportNames.tla model-checks the name look-up of the evaluator eval / exec set up over those routes.
+Round 4: relative from-imports (`from .m import b`, `from ..m import *`, `from . import m [as x], n`; 1 - 3 dots) executed by the
+    code of an app package, a member of it, a package below modules/, a member, sub-packages of both, and a plain script
+    file, naming members, non-members that are installed modules (allow-listed, refused, shadowed by a pyscript module),
+    dotted names and near-misses of member names (ImportCore!RelPys: a relative clause means a member of the package and
+    never an absolute module); the import statement forms also run as absolute statements from those contexts.
 """
 import copy
 import json
@@ -55,6 +60,13 @@ SHADOW_FILES = {
     "apps/app1/__init__.py": "marker = 'app1'\nval = 1\n",
     "apps/app1/sib.py": "marker = 'app1.sib'\nleaf = 2\n",
     "apps/zlib/__init__.py": "marker = 'apps-zlib'\ncrc32 = 'mine'\n",                          # an app package named like a refused module
+    # round 4: members for relative imports (values are lists: one object per module, identity tells the owner)
+    "modules/pk/math.py": "marker = ['pk.math']\npi = ['mine']\n",                             # a member named like an allow-listed module
+    "modules/pk/deep/__init__.py": "marker = ['pk.deep']\ndval = ['d']\n",
+    "modules/pk/deep/er.py": "marker = ['pk.deep.er']\ne_val = ['e']\n",
+    "apps/app1/shutil.py": "marker = ['app1.shutil']\nrmtree = ['mine']\n",                     # a member named like a refused module
+    "apps/app1/inner/__init__.py": "marker = ['app1.inner']\nival = ['i']\n",
+    "apps/app1/inner/leaf.py": "marker = ['app1.inner.leaf']\nlval = ['l']\n",
 }
 # pyscript modules of the scenario: name -> (context name, scope, public names, star names)
 PYS = {
@@ -68,7 +80,25 @@ PYS = {
     "app1": ("apps.app1", "app", ["marker", "val"], None),
     "app1.sib": ("apps.app1.sib", "app", ["leaf", "marker"], None),
     "zlib": ("apps.zlib", "app", ["crc32", "marker"], None),
+    "pk.math": ("modules.pk.math", "any", ["marker", "pi"], None),
+    "pk.deep": ("modules.pk.deep", "any", ["dval", "marker"], None),
+    "pk.deep.er": ("modules.pk.deep.er", "any", ["e_val", "marker"], None),
+    "app1.shutil": ("apps.app1.shutil", "app", ["marker", "rmtree"], None),
+    "app1.inner": ("apps.app1.inner", "app", ["ival", "marker"], None),
+    "app1.inner.leaf": ("apps.app1.inner.leaf", "app", ["lval", "marker"], None),
 }
+PYS_BY_CTX = {p[0]: p for p in PYS.values()}
+# the contexts statements are executed in: kind -> (context name, rel_import_path as the loader sets it, file, package parts)
+CTX_KINDS = {
+    "file": ("file.hello", None, "hello.py", []),
+    "app": ("apps.app1", "apps/app1/__init__", "apps/app1/__init__.py", ["apps", "app1"]),
+    "appmember": ("apps.app1.sib", "apps/app1", "apps/app1/sib.py", ["apps", "app1"]),
+    "appsub": ("apps.app1.inner", "apps/app1/inner", "apps/app1/inner/__init__.py", ["apps", "app1", "inner"]),
+    "modpkg": ("modules.pk", "modules/pk", "modules/pk/__init__.py", ["modules", "pk"]),
+    "modmember": ("modules.pk.sub", "modules/pk", "modules/pk/sub.py", ["modules", "pk"]),
+    "subpkg": ("modules.pk.deep", "modules/pk/deep", "modules/pk/deep/__init__.py", ["modules", "pk", "deep"]),
+}
+PKG_KINDS = [k for k in CTX_KINDS if k != "file"]
 SUBMODULES = ["os.path", "json.decoder", "json.tool", "homeassistant.const", "homeassistant.core", "homeassistant.helpers",
               "xml.etree", "xml.etree.ElementTree", "importlib.util", "email.mime.text", "collections.abc", "concurrent.futures",
               "urllib.parse", "logging.handlers", "datetime.datetime", "math.pi", "re.compile", "functools.partial",
@@ -137,7 +167,10 @@ def clause(mod, asname="-", name="-"):
 def stmt_text(cs):
     if cs["form"] == "import":
         return "import " + ", ".join(c["mod"] + ("" if c["as"] == "-" else " as " + c["as"]) for c in cs["clauses"])
-    return "from %s import %s" % (cs["clauses"][0]["mod"],
+    dots = "." * cs.get("level", 0)
+    if cs["form"] == "frompkg":
+        return "from %s import %s" % (dots, ", ".join(c["mod"] + ("" if c["as"] == "-" else " as " + c["as"]) for c in cs["clauses"]))
+    return "from %s import %s" % (dots + cs["clauses"][0]["mod"],
                                  ", ".join(c["name"] + ("" if c["as"] == "-" else " as " + c["as"]) for c in cs["clauses"]))
 
 
@@ -170,14 +203,141 @@ def form_name(cs):
         if c["as"] != "-":
             base += " as x"
         return base + (", c" if len(cs["clauses"]) > 1 else "")
-    mod = "a.b" if len(c["parts"]) > 1 else "a"
+    dots = "." * cs.get("level", 0)
+    if cs["form"] == "frompkg":
+        return "from %s import a%s%s" % (dots, " as x" if c["as"] != "-" else "", ", c" if len(cs["clauses"]) > 1 else "")
+    mod = dots + ("a.b" if len(c["parts"]) > 1 else "a")
     if c["name"] == "*":
         return "from %s import *" % mod
     return "from %s import b%s%s" % (mod, " as c" if c["as"] != "-" else "", ", d" if len(cs["clauses"]) > 1 else "")
 
 
-def mk(form, clauses, via, ctx="file", ns=None):
-    return {"kind": "import", "form": form, "clauses": clauses, "via": via, "ctx": ctx, "ns": dict(ns or NS_NONE)}
+def mk(form, clauses, via, ctx="file", ns=None, level=0):
+    """ctx = the kind of context the statement is executed in (CTX_KINDS); the recording carries the package parts (pkg)
+    and the scope absolute names have there ("app": code below apps/)"""
+    pkg = CTX_KINDS[ctx][3]
+    return {"kind": "import", "form": form, "clauses": clauses, "via": via, "ck": ctx, "pkg": list(pkg), "level": level,
+            "ctx": "app" if pkg[:1] == ["apps"] else "file", "ns": dict(ns or NS_NONE)}
+
+
+def norm_case(c):
+    """replay files written before round 4"""
+    if c.get("kind") == "import":
+        c.setdefault("ck", c.get("ctx", "file"))
+        c.setdefault("pkg", list(CTX_KINDS[c["ck"]][3]))
+        c.setdefault("level", 0)
+    return c
+
+
+def rel_target(ck, level, mod):
+    """input selection only (which attribute to name, which names are members): the context name a relative clause means"""
+    pkg = CTX_KINDS[ck][3]
+    if not pkg or len(pkg) < level + 1:
+        return None
+    return ".".join(pkg[:len(pkg) + 1 - level] + [mod])
+
+
+def rel_statements(ck, level, mod, vias, ns=None, forms=("b", "b as c", "*", "pkg", "pkg as x"), allow_all=False):
+    """the relative forms for one name: from .m import b / b as c / *, from . import m [as x]"""
+    p = PYS_BY_CTX.get(rel_target(ck, level, mod) or "")
+    attr = [n for n in p[2] if n != "sub"][0] if p else "nm_zz"
+    out = []
+    nsarg = ns
+    for via in vias:
+        ns = nsarg if via in ("exec", "evalexec", "funcexec", "eval") else None      # only eval / exec take namespace arguments
+        if "b" in forms:
+            out.append(mk("from", [clause(mod, "-", attr)], via, ck, ns, level))
+        if "b as c" in forms:
+            out.append(mk("from", [clause(mod, "c_al", attr)], via, ck, ns, level))
+        if "*" in forms and via not in ("func",):
+            out.append(mk("from", [clause(mod, "-", "*")], via, ck, ns, level))
+        if "." not in mod:
+            if "pkg" in forms:
+                out.append(mk("frompkg", [clause(mod)], via, ck, ns, level))
+            if "pkg as x" in forms:
+                out.append(mk("frompkg", [clause(mod, "x_al")], via, ck, ns, level))
+    return out
+
+
+# names written after the dots: members of some package of the scenario, installed modules (refused, allow-listed, shadowed by
+# a pyscript module or an app package), dotted names, near-misses of member names, names of the packages themselves
+REL_CORE = ["os", "json", "math", "socket", "sib", "sub", "shutil", "deep.er", "os.path", "subx"]
+REL_MORE = ["subprocess", "select", "sys", "inner", "deep", "leaf", "er", "json.decoder", "homeassistant.const", "inner.leaf", "si",
+            "zlib", "pk", "app1"]
+REL_FIXED = REL_CORE + REL_MORE
+REL_ROUTES = [("func", None), ("exec", None), ("evalexec", None), ("exec", "ns"), ("funcexec", "ns"), ("eval", None), ("evalexec", "ns")]
+REL_SHORT = ("b", "*", "pkg")
+
+
+def gen_relative(ctx, r, allow, names, allow_all):
+    """relative from-imports: context kinds x levels x member / non-member names x forms x routes"""
+    out = []
+    q = r.randrange(1000)
+
+    def routes(k):
+        via, nsk = REL_ROUTES[k % len(REL_ROUTES)]
+        return via, (NS_EXPLICIT[(k * 7 + q) % len(NS_EXPLICIT)] if nsk else None)
+    refused_pool = [n for n in names if n not in allow and n not in PYS and n not in REL_FIXED and n not in SKIP_IMPORT]
+    sample = sorted(r.sample(refused_pool, ctx.pick(10, 60)))
+    k = 0
+    if not allow_all:
+        # one dot: the core names from every package context, the others (all allow-listed names, a seeded sample of refused
+        # installed names) from one or two of them; every statement directly and through one rotating route
+        for j, n in enumerate(REL_FIXED + sorted(allow) + sample):
+            nk = len(PKG_KINDS) if n in REL_CORE or not ctx.quick else (1 if n in sample else 2)
+            for ck in (PKG_KINDS if nk == len(PKG_KINDS) else [PKG_KINDS[(j + i * 3) % len(PKG_KINDS)] for i in range(nk)]):
+                out += rel_statements(ck, 1, n, ["direct"])
+                via, ns = routes(k)
+                out += rel_statements(ck, 1, n, [via], ns, forms=REL_SHORT if ctx.quick else ("b", "b as c", "*", "pkg", "pkg as x"))
+                k += 1
+        # more dots: sub-packages reach the members of the parent, everything else is above the top
+        for n in REL_FIXED + sorted(allow)[:6] + sample[:4]:
+            for ck in ("subpkg", "appsub"):
+                via, ns = routes(k)
+                out += rel_statements(ck, 2, n, ["direct", via] if n in REL_CORE or k % 3 == 0 else ["direct"], ns, forms=REL_SHORT)
+                k += 1
+        for n in ("os", "math", "sub", "sib"):
+            for ck in ("modpkg", "appmember", "app"):
+                out += rel_statements(ck, 2, n, ["direct", "exec"], forms=("b", "pkg"))
+            for ck in ("subpkg", "appsub"):
+                out += rel_statements(ck, 3, n, ["direct", "exec"], forms=("b", "pkg"))
+        # code that belongs to no package
+        for n in ("os", "math", "json", "sub", "hello", "pk"):
+            out += rel_statements("file", 1, n, ["direct", "func", "exec"], forms=REL_SHORT)
+            out += rel_statements("file", 2, n, ["direct"], forms=("b", "pkg"))
+        # several names / several modules in one statement: what is bound before a refusal stays, nothing of the refused clause
+        for ck, mem, attrs in (("modpkg", "sub", ("leaf", "marker")), ("app", "sib", ("leaf", "marker")), ("subpkg", "er", ("e_val", "marker"))):
+            for via in ("direct", "func", "exec"):
+                out.append(mk("from", [clause(mem, "-", attrs[0]), clause(mem, "n2", attrs[1])], via, ck, None, 1))
+                out.append(mk("from", [clause("os", "-", "sep"), clause("os", "n2", "name")], via, ck, None, 1))
+                out.append(mk("from", [clause("math", "-", "pi"), clause("math", "n2", "e")], via, ck, None, 1))
+                for other in ("os", "math", "subprocess"):
+                    out.append(mk("frompkg", [clause(mem), clause(other, "o_al")], via, ck, None, 1))
+                    out.append(mk("frompkg", [clause(other), clause(mem, "m_al")], via, ck, None, 1))
+            for i in range(3):
+                nsf = NS_EXPLICIT[(q + i * 7) % len(NS_EXPLICIT)]
+                out.append(mk("frompkg", [clause(mem), clause("os", "o_al")], ("exec", "funcexec", "evalexec")[i], ck, nsf, 1))
+        # a name that is absent from a member
+        for ck, mem in (("modpkg", "sub"), ("app", "sib"), ("modmember", "math")):
+            for via in ("direct", "exec"):
+                out.append(mk("from", [clause(mem, "-", "nosuch_attr_zz")], via, ck, None, 1))
+        # the absolute forms from the package contexts (below apps/ app packages resolve, elsewhere not)
+        for n in ("os", "math", "json", "pk.math", "app1.sib", "shutil"):
+            for ck in PKG_KINDS[1:]:
+                out += statements_for(n, ["direct"], ctx=ck)
+    else:
+        for j, n in enumerate(REL_FIXED + sorted(allow)[:5] + sample[:5]):
+            kinds = [PKG_KINDS[(j + i * 2) % len(PKG_KINDS)] for i in range(3 if n in REL_FIXED else 1)]
+            for ck in kinds:
+                if n in SKIP_IMPORT:
+                    continue
+                via, ns = routes(k)
+                out += rel_statements(ck, 1, n, ["direct", via] if k % 3 == 0 else ["direct"], ns, forms=("b", "*", "pkg"))
+                k += 1
+        for n in ("os", "math", "sub", "sib"):
+            out += rel_statements("subpkg", 2, n, ["direct"], forms=("b", "pkg"))
+            out += rel_statements("file", 1, n, ["direct"], forms=("b", "pkg"))
+    return out
 
 
 def statements_for(mod, vias, attr="nm_zz", star=True, ctx="file", ns=None):
@@ -234,7 +394,8 @@ def gen_cases(ctx, allow, allow_all):
         for k, n in enumerate(names):
             step = ctx.pick(6, 1)
             extra = [["func"], ["evalexec"], ["eval"], ["compiled"]][(k // step) % 4] if k % step == 0 else []
-            cases += statements_for(n, ["direct", "exec"] + extra)
+            # (quick: exec for every second name that is neither allow-listed nor shadowed - round 4 made room for the relative forms)
+            cases += statements_for(n, ["direct"] + (["exec"] if k % 2 == 0 or n in allow or n in PYS or not ctx.quick else []) + extra)
         for n in SUBMODULES + near_misses(allow):
             cases += statements_for(n, ["direct", "exec", "func"])
         # all routes for every allow-listed name and every shadowing name
@@ -283,6 +444,7 @@ def gen_cases(ctx, allow, allow_all):
                 nsf = NS_EXPLICIT[(j * 3 + i * 7) % len(NS_EXPLICIT)]
                 cases.append(mk("from", [clause(m, "-", a)], via, ns=nsf))
                 cases.append(mk("from", [clause(m, "-", "*")], via, ns=nsf))
+        cases += gen_relative(ctx, r, allow, names, False)
     else:
         pool = [n for n in names if n not in SKIP_IMPORT and n not in PYS and not n.startswith("_test") and not n.startswith("pytest")]
         sample = r.sample(pool, min(len(pool), ctx.pick(36, 10000)))
@@ -300,6 +462,7 @@ def gen_cases(ctx, allow, allow_all):
             cases.append(mk("import", [clause(a), clause(b)], "direct"))
         cases += ns_statements(r, sorted(r.sample(sample, min(len(sample), ctx.pick(5, 40)))) + sorted(allow)[:3] + ["json", "pk.sub"],
                                (("exec", 2), ("evalexec", 1), ("funcexec", 1)), allow_all=True)
+        cases += gen_relative(ctx, r, allow, names, True)
     for i, c in enumerate(cases):
         c["allow_all"] = allow_all
         c["id"] = "%s%d" % ("T" if allow_all else "F", i)
@@ -326,12 +489,12 @@ def work(job):
         allow = set(ALLOWED_IMPORTS)
 
         def new_ctx(kind):
-            if kind == "app":
-                gc = GlobalContext("apps.app1", global_sym_table={}, manager=GlobalContextMgr, rel_import_path="apps/app1/__init__")
-                gc.file_path = os.path.join(w.pdir, "apps/app1/__init__.py")
+            name, rel, path, _pkg = CTX_KINDS[kind]
+            if rel is not None:
+                gc = GlobalContext(name, global_sym_table={}, manager=GlobalContextMgr, rel_import_path=rel)
             else:
-                gc = GlobalContext("file.hello", global_sym_table={}, manager=GlobalContextMgr)
-                gc.file_path = os.path.join(w.pdir, "hello.py")
+                gc = GlobalContext(name, global_sym_table={}, manager=GlobalContextMgr)
+            gc.file_path = os.path.join(w.pdir, path)
             a = AstEval(gc.name, gc)
             Function.install_ast_funcs(a)
             return gc, a
@@ -344,7 +507,7 @@ def work(job):
 
         def classify(cs, c, name, v):
             """identity class of the object bound under `name`"""
-            if cs["form"] == "import":
+            if cs["form"] in ("import", "frompkg"):
                 if isinstance(v, types.ModuleType):
                     if sys.modules.get(c["mod"]) is v:
                         return "module:" + c["mod"]
@@ -361,9 +524,12 @@ def work(job):
             if real is not None and hasattr(real, attr) and getattr(real, attr) is v:
                 owners.append("attr:module:" + c["mod"])
             for cn, g in GlobalContextMgr.contexts.items():
-                if g.module is not None and cn in ("modules." + c["mod"], "apps." + c["mod"]) and attr in g.module.__dict__ \
-                        and g.module.__dict__[attr] is v:
+                # absolute: the contexts that carry the module's name; relative: whichever pyscript module owns the object
+                if g.module is not None and (cs["level"] > 0 or cn in ("modules." + c["mod"], "apps." + c["mod"])) \
+                        and attr in g.module.__dict__ and g.module.__dict__[attr] is v:
                     owners.append("attr:pysmod:" + cn)
+            if cs["level"] > 0 and len([o for o in owners if o.startswith("attr:pysmod")]) > 1:
+                return "attr:ambiguous:" + ",".join(sorted(owners))
             if not owners:
                 return "attr:foreign"
             # small ints / interned strings can be the same object in two modules: prefer the pyscript owner when one exists
@@ -373,7 +539,9 @@ def work(job):
         def truth_for(cs, c):
             """what plain CPython does with the module (run natively, after the interpreter under test)"""
             t = {"imp": "-", "has": False, "star": [], "pub": []}
-            p = pys_entry(c["mod"], cs["ctx"]) or (PYS.get(c["mod"]) if c["mod"] in PYS else None)
+            # (a relative clause: what the scenario's member is comes from E.pys inside the acceptor; here CPython's answer
+            #  about the absolute module of that name, which only the deviation "relative-falls-back-absolute" consults)
+            p = None if cs["level"] > 0 else (pys_entry(c["mod"], cs["ctx"]) or (PYS.get(c["mod"]) if c["mod"] in PYS else None))
             if p and not (cs["via"] == "compiled"):
                 t["imp"] = "ok"
                 t["pub"] = list(p[2])
@@ -410,6 +578,13 @@ def work(job):
             for c in cs["clauses"]:
                 if c["name"] != "nm_zz":
                     continue
+                if cs["level"] > 0:
+                    # a non-member: an attribute the installed module of that name has (looked up without importing anything)
+                    mod = sys.modules.get(c["mod"])
+                    cand = [n for n in sorted(vars(mod)) if not n.startswith("_") and not isinstance(getattr(mod, n), types.ModuleType)] if mod else []
+                    if cand:
+                        c["name"] = cand[0]
+                    continue
                 p = pys_entry(c["mod"], cs["ctx"])
                 if p and cs["via"] != "compiled":
                     c["name"] = [n for n in p[2] if n != "sub"][0]
@@ -428,7 +603,7 @@ def work(job):
             cs = copy.deepcopy(cs)
             if cs["kind"] == "import":
                 pick_attr(cs)
-                gc, a = new_ctx(cs["ctx"])
+                gc, a = new_ctx(cs["ck"])
                 src = wrap(cs)
                 before = dict(gc.global_sym_table)
                 exc = "ok"
@@ -653,7 +828,8 @@ def slim(c):
 
 def validate(ctx, cases, allow, label):
     path = os.path.join(ctx.scratch, "c17_%s.json" % label)
-    pys = [{"name": n, "ctxname": p[0], "scope": p[1]} for n, p in sorted(PYS.items())]
+    pys = [{"name": n, "ctxname": p[0], "scope": p[1], "pub": list(p[2]), "star": list(p[3] if p[3] is not None else p[2])}
+           for n, p in sorted(PYS.items())]
     json.dump({"allow": allow, "pys": pys, "cases": [slim(c) for c in cases]}, open(path, "w"))
     res = tlc.accept_batch("ImportTrace", path, ctx.scratch, timeout=1800)
     if res.distinct != len(cases) + 1:
@@ -708,10 +884,47 @@ def selftest(ctx, cases, rejected, allow):
     def add(c, tag):
         c["id"] = "corrupt-%s/%s" % (tag, c["id"])
         bad.append(c)
-    n = {"a": 0, "b": 0, "c": 0, "d": 0, "e": 0, "f": 0, "g": 0, "h": 0, "i": 0, "j": 0}
+    n = {"a": 0, "b": 0, "c": 0, "d": 0, "e": 0, "f": 0, "g": 0, "h": 0, "i": 0, "j": 0, "k": 0, "l": 0, "m": 0}
     for c in cases:
         if c["id"] in rejected:
             continue
+        # round 4: recordings of relative from-imports (statements without namespace arguments: everything lands in the script's table)
+        if c["kind"] == "import" and c["level"] > 0 and c["ns"]["g"] == "-" and c["via"] != "eval":
+            c0 = c["clauses"][0]
+            nm = c0["as"] if c0["as"] != "-" else (c0["mod"] if c["form"] == "frompkg" else c0["name"])
+            if c["obs"]["exc"] == "ModuleNotFoundError" and not c["obs"]["bound"] and nm != "*" and n["k"] < 14:
+                c2 = copy.deepcopy(c)            # the non-member imported after all (what an absolute import of the name would bind)
+                c2["obs"].update({"exc": "ok", "bound": [nm], "places": {"script": [nm], "g": [], "l": []},
+                                  "vals": [{"n": nm, "c": ("module:" if c["form"] == "frompkg" else "attr:module:") + c0["mod"]}]})
+                add(c2, "rel-refused-imported")
+                c3 = copy.deepcopy(c)
+                c3["obs"].update({"bound": ["leftover"], "places": {"script": ["leftover"], "g": [], "l": []}})
+                add(c3, "rel-refused-binds")
+                c4 = copy.deepcopy(c)
+                c4["obs"]["exc"] = "AttributeError"
+                add(c4, "rel-refused-wrong-exception")
+                n["k"] += 1
+                continue
+            if c["obs"]["exc"] == "ok" and c["obs"]["vals"] and "pysmod:" in c["obs"]["vals"][0]["c"] and n["l"] < 12:
+                c2 = copy.deepcopy(c)
+                c2["obs"].update({"exc": "ModuleNotFoundError", "bound": [], "vals": [], "places": {"script": [], "g": [], "l": []}})
+                add(c2, "rel-member-refused")
+                c3 = copy.deepcopy(c)            # the absolute module of that name instead of the member
+                c3["obs"]["vals"][0]["c"] = ("module:" if c["form"] == "frompkg" else "attr:module:") + c0["mod"]
+                add(c3, "rel-member-absolute-object")
+                c4 = copy.deepcopy(c)            # the member of another package
+                c4["obs"]["vals"][0]["c"] = c4["obs"]["vals"][0]["c"].replace("pysmod:modules.pk", "pysmod:apps.app1") \
+                    if "modules.pk" in c4["obs"]["vals"][0]["c"] else c4["obs"]["vals"][0]["c"].replace("pysmod:apps.app1", "pysmod:modules.pk")
+                add(c4, "rel-member-of-other-package")
+                n["l"] += 1
+                continue
+            if c["obs"]["exc"] == "ImportError" and (not c["pkg"] or len(c["pkg"]) < c["level"] + 1) and nm != "*" and n["m"] < 8:
+                c2 = copy.deepcopy(c)            # no parent package / above the top: imported after all
+                c2["obs"].update({"exc": "ok", "bound": [nm], "places": {"script": [nm], "g": [], "l": []},
+                                  "vals": [{"n": nm, "c": ("module:" if c["form"] == "frompkg" else "attr:module:") + c0["mod"]}]})
+                add(c2, "rel-impossible-imported")
+                n["m"] += 1
+                continue
         # round 3: recordings of the namespace-argument routes
         if c["kind"] == "import" and c["ns"]["g"] != "-" and c["via"] != "eval":
             if c["obs"]["exc"] == "ok" and c["obs"]["bound"] and n["g"] < 12:
@@ -805,7 +1018,9 @@ def selftest(ctx, cases, rejected, allow):
     if len(bad) < 20:
         raise MachineryFailure("selftest: too few recordings to corrupt (%d)" % len(bad))
     for key, what in (("g", "imports bound through namespace arguments"), ("h", "imports refused through namespace arguments"),
-                      ("i", "excluded names through namespace arguments"), ("j", "routed print / log calls")):
+                      ("i", "excluded names through namespace arguments"), ("j", "routed print / log calls"),
+                      ("k", "relative imports of non-members refused"), ("l", "relative imports of members"),
+                      ("m", "relative imports without / above the parent package")):
         if n[key] < 4:
             raise MachineryFailure("selftest: too few recordings of the kind '%s' to corrupt (%d)" % (what, n[key]))
     res = validate(ctx, bad, allow, "corrupt")
@@ -816,8 +1031,10 @@ def selftest(ctx, cases, rejected, allow):
     ctx.cov["selftest_corruptions_rejected"] = len(bad)
 
 
-MODEL_MUTANTS = ("prefix", "skip-dotted", "bind-first", "bind-globals")
-WITNESSES = ("w_refused", "w_shadow", "w_stub", "w_partial", "w_ns_g", "w_ns_l", "w_ns_script", "w_ns_refused", "w_ns_lost")
+MODEL_MUTANTS = ("prefix", "skip-dotted", "bind-first", "bind-globals", "rel-fallback", "rel-exempt")
+WITNESSES = ("w_refused", "w_shadow", "w_stub", "w_partial", "w_ns_g", "w_ns_l", "w_ns_script", "w_ns_refused", "w_ns_lost",
+             "w_rel_member", "w_rel_refused", "w_rel_refused_allow_all", "w_rel_refused_listed", "w_rel_impossible", "w_rel_level2",
+             "w_rel_partial", "w_rel_ns")
 NAME_INVS = ["CtxBoundEverywhere", "ExcludedNeverBuiltin", "MechanismMatchesRule", "NoPhantomUser", "OrdinaryBuiltinKept"]
 NAME_MUTANTS = ("ns-drops-ctx", "ns-native-builtins", "nested-drops-ctx")
 NAME_WITNESSES = ("w_ctx_ns", "w_ctx_nested", "w_excl_ns", "w_user", "w_user_loses")
@@ -833,7 +1050,8 @@ def model(ctx):
         open(p, "w").write("SPECIFICATION Spec\nCONSTANT Mutant = \"%s\"\n%s\nCHECK_DEADLOCK FALSE\n" % (
             mutant, "\n".join("INVARIANT " + i for i in invs)))
         return p
-    main_invs = ["RefusedBindsNothing", "AllowedIffRule", "StubsIgnored", "ShadowResolvesToPyscript", "BoundWhereDesignated"]
+    main_invs = ["RefusedBindsNothing", "AllowedIffRule", "StubsIgnored", "ShadowResolvesToPyscript", "BoundWhereDesignated",
+                 "RelativeStaysInPackage"]
     thunks = [lambda: tlc.run("Imports", cfg("Imports", "main", "", main_invs + ["Table"]), ctx.scratch, workers=max(1, min(4, NPROC // 2)), timeout=1800),
               lambda: tlc.run("ImportNames", cfg("ImportNames", "main", "", NAME_INVS + ["Table"]), ctx.scratch, workers=1, timeout=900)]
     thunks += [(lambda m=m: tlc.run("ImportNames", cfg("ImportNames", "mut_" + m, m, NAME_INVS), ctx.scratch, workers=1, timeout=900))
@@ -854,7 +1072,7 @@ def main(ctx):
     if ctx.replay:
         rp = json.load(open(ctx.replay))
         c = rp["case"]["case"]
-        c = {k: v for k, v in c.items() if k not in ("obs", "truth", "out", "loggers", "stdout", "src")}
+        c = norm_case({k: v for k, v in c.items() if k not in ("obs", "truth", "out", "loggers", "stdout", "src")})
         if c["kind"] == "log":
             res_cases = run_workers("harness.drivers.c17", "work", [{"allow_all": False, "cases": [], "logs": True, "sub": c["sub"],
                                                                     "legacy": c["sub"] == "legacy"}], ctx.scratch, nproc=1)[0]
@@ -966,7 +1184,32 @@ def main(ctx):
     ctx.cov["bound_by_place"] = {q: sum(1 for c in imp if c["ns"]["g"] != "-" and c["obs"]["places"][q]) for q in ("script", "g", "l")}
     ctx.cov["builtin_names_through_namespace_arguments"] = sum(1 for c in cases if c["kind"] == "builtin" and "ns" in c)
     ctx.cov["routed_print_log_calls"] = sum(1 for c in cases if c["kind"] == "log" and c["via"] != "direct")
+    # relative from-imports: per context kind, members imported / non-members refused; levels; routes
+    rel = [c for c in imp if c["level"] > 0]
+    relcov = {"statements": len(rel), "per_context_kind": {}, "per_level": {}, "per_route_refused": {}}
+    for c in rel:
+        e = relcov["per_context_kind"].setdefault(c["ck"], {"n": 0, "member_bound": 0, "refused": 0, "impossible": 0})
+        member = any("pysmod:" in v["c"] for v in c["obs"]["vals"])
+        e["n"] += 1
+        e["member_bound"] += member
+        e["refused"] += c["obs"]["exc"] == "ModuleNotFoundError" and not c["obs"]["bound"]
+        e["impossible"] += c["obs"]["exc"] == "ImportError" and (not c["pkg"] or len(c["pkg"]) < c["level"] + 1)
+        lv = relcov["per_level"].setdefault(str(c["level"]), {"n": 0, "member_bound": 0})
+        lv["n"] += 1
+        lv["member_bound"] += member
+        if c["obs"]["exc"] == "ModuleNotFoundError":
+            relcov["per_route_refused"][c["via"]] = relcov["per_route_refused"].get(c["via"], 0) + 1
+    relcov["allow_all_true"] = sum(1 for c in rel if c["allow_all"])
+    relcov["absolute_forms_from_package_contexts"] = sum(1 for c in imp if c["level"] == 0 and c["ck"] not in ("file", "app"))
+    ctx.cov["relative_imports"] = relcov
     if not ctx.violations:
+        pk = relcov["per_context_kind"]
+        thin = [k for k in PKG_KINDS if pk.get(k, {}).get("member_bound", 0) < 5 or pk.get(k, {}).get("refused", 0) < 20]
+        thin += ["level2"] if relcov["per_level"].get("2", {}).get("member_bound", 0) < 3 else []
+        thin += ["no-parent"] if pk.get("file", {}).get("impossible", 0) < 10 else []
+        thin += ["route:" + v for v in ("direct", "func", "exec", "evalexec", "funcexec") if relcov["per_route_refused"].get(v, 0) < 3]
+        if thin:
+            raise MachineryFailure("vacuous coverage of relative imports: %s" % thin)
         want = {"%s %s" % (v, ns_key(nsf)) for v in NS_VIAS for nsf in NS_EXPLICIT}
         # (eval(exec(..)) with separate locals may lose the names - ImportCore!DefaultLocalsOpen - so "bound" is required
         # of the exec routes only)
@@ -981,13 +1224,15 @@ def main(ctx):
     ctx.cov["shadowing_statements"] = sum(1 for c in imp if any(cl["mod"] in PYS for cl in c["clauses"]))
     ctx.cov["bound_something"] = sum(1 for c in imp if c["obs"]["bound"])
     ctx.cov["skip_list_allow_all"] = sorted(SKIP_IMPORT)
-    ctx.cov["distinct_nontrivial"] = len({json.dumps([stmt_text(c), c["via"], c["allow_all"], c["ctx"]]) for c in imp
+    ctx.cov["distinct_nontrivial"] = len({json.dumps([stmt_text(c), c["via"], c["allow_all"], c["ck"]]) for c in imp
                                           if c["obs"]["exc"] == "ModuleNotFoundError" or c["obs"]["bound"]
                                           or any(cl["parts"][0] == "stubs" for cl in c["clauses"])})
     ctx.cov["rule"] = ("every identifier in sys.stdlib_module_names + pkgutil.iter_modules() (allow_all=False: all; True: seeded sample minus "
                        "a documented skip list) + submodule sample + near-misses of the allow-list + shadowing files x {import a, import a.b, "
                        "import a as x, from a import b, from a import b as c, from a[.b] import *, two-clause forms, missing attribute, stubs} x "
-                       "{direct, function body, exec, eval, eval(exec), @pyscript_compile}; non-trivial = the statement was refused, bound "
+                       "{direct, function body, exec, eval, eval(exec), @pyscript_compile}; relative from-imports (1-3 dots; from .m import b / b as c / *, "
+                       "from . import m [as x], two names / modules) of member and non-member names from app / module packages, their members and "
+                       "sub-packages and from a plain script; non-trivial = the statement was refused, bound "
                        "something, or is a from-import below stubs; distinct by statement text, route, configuration and context kind")
     for c in (imp[0], [x for x in imp if x["obs"]["bound"]][0], [x for x in cases if x["kind"] == "builtin" and x["name"] == "open"][0]):
         ctx.sample({k: v for k, v in c.items() if k not in ("truth",)})
@@ -1003,6 +1248,8 @@ def main(ctx):
         "what 'imports normally' means for a module is CPython's own behaviour in the same process (importlib / exec of the statement)",
         "`import a.b` may bind the dotted name (pyscript's naming scheme) or the top package (CPython); both accepted",
         "an app package named from a context outside apps/ may be refused or imported (statement silent)",
-        "from-imports of submodules that are not yet attributes of their package, and relative imports, are not generated",
+        "from-imports of submodules that are not yet attributes of their package are not generated",
+        "a relative import from code outside any package / above the top package: ImportError (as Python) or ModuleNotFoundError, nothing bound",
+        "`from .stubs import x` and relative imports inside @pyscript_compile bodies are not generated",
         "eval(): an import statement is not an expression - SyntaxError (or the refusal) and nothing bound",
     ]
